@@ -149,8 +149,10 @@ theorem keys_pos_index {a : Arg} {n : Nat} (h : Key.pos n ∈ a.keys) : a.index 
 
 /-- the loop's state: no flag-subcommand revisit is in progress at this level, and the pending arg is an arg of
 the command, positional exactly when it was started by index -/
-def PInv (c : Cmd) (p : P) : Prop :=
-  p.flagSubSkip = 0 ∧ ∀ pd, p.pending = some pd → ∃ a, c.find pd.id = some a ∧ (pd.ident = some .index ∨ a.index = none)
+def PendInv (c : Cmd) (p : P) : Prop :=
+  ∀ pd, p.pending = some pd → ∃ a, c.find pd.id = some a ∧ (pd.ident = some .index ∨ a.index = none)
+
+def PInv (c : Cmd) (p : P) : Prop := p.flagSubSkip = 0 ∧ PendInv c p
 
 theorem PInv.pendingOk {c : Cmd} {p : P} (h : PInv c p) : PendingOk c p := by
   intro pd hpd
@@ -475,21 +477,37 @@ theorem shortLoop_spec (c : Cmd) (wf : WF c) : ∀ (fuel : Nat) (sf : ShortFlags
               exact ⟨by simp, by simp, by simp⟩
         · exact lit .noMatchingArg vaf (by simp)
 
-/-- **`parse_short_arg`** (no flag-subcommand revisit in progress): keeps the invariant, never panics, never answers
+theorem advanceBy_spec : ∀ (n i : Nat) (sf : ShortFlags), n ≤ sf.chars.length →
+    ∃ sf1, ShortFlags.advanceBy n i sf = (sf1, none) ∧ n + sf1.chars.length = sf.chars.length
+  | 0, i, sf, _ => ⟨sf, rfl, by simp⟩
+  | n+1, i, sf, h => by
+    cases hc : sf.chars with
+    | nil => rw [hc] at h; simp at h
+    | cons ch cs =>
+      have hnf : sf.nextFlag = ({ sf with chars := cs, off := sf.off + ch.length }, .ch ch) := by
+        unfold ShortFlags.nextFlag; rw [hc]
+      obtain ⟨sf1, h1, h2⟩ := advanceBy_spec n (i+1) { sf with chars := cs, off := sf.off + ch.length }
+        (by rw [hc] at h; simpa using h)
+      refine ⟨sf1, ?_, ?_⟩
+      · unfold ShortFlags.advanceBy; rw [hnf]; exact h1
+      · simp at h2 ⊢; omega
+
+/-- **`parse_short_arg`**, also when it revisits a cluster after a flag subcommand (`flag_subcmd_skip` within the
+cluster): afterwards no revisit is in progress, the invariant holds, it never panics, and it never answers
 `UnneededAttachedValue` or `AttachedValueNotConsumed` -/
 theorem parseShortArg_spec (c : Cmd) (wf : WF c) (sf : ShortFlags) (st : ParseState) (pc : Nat) (vaf : Bool) (p : P)
-    (hp : PInv c p) (hst : stateArg c st ≠ none) :
+    (hpend : PendInv c p) (hf : p.flagSubSkip ≤ sf.chars.length) (hst : stateArg c st ≠ none) :
     PInv c (parseShortArg c sf st pc vaf p).1 ∧
     (∀ e, (parseShortArg c sf st pc vaf p).2 = .error e → isPanic e = false) ∧
     (∀ r v, (parseShortArg c sf st pc vaf p).2 = .ok (r, v) →
       r ≠ .unneededAttachedValue ∧ ResOk c (parseShortArg c sf st pc vaf p).1 r) := by
-  have lit : ∀ (v0 : Bool),
+  have lit : ∀ (v0 : Bool), p.flagSubSkip = 0 →
       PInv c ((p, (Except.ok (.maybeHyphenValue, v0) : Except EK (ParseResult × Bool))) : R (ParseResult × Bool)).1 ∧
       (∀ e, ((p, (Except.ok (.maybeHyphenValue, v0) : Except EK (ParseResult × Bool))) : R (ParseResult × Bool)).2 = .error e → isPanic e = false) ∧
       (∀ r v, ((p, (Except.ok (.maybeHyphenValue, v0) : Except EK (ParseResult × Bool))) : R (ParseResult × Bool)).2 = .ok (r, v) →
         r ≠ .unneededAttachedValue ∧ ResOk c p r) := by
-    intro v0
-    refine ⟨hp, by simp, ?_⟩
+    intro v0 h0
+    refine ⟨⟨h0, hpend⟩, by simp, ?_⟩
     intro r v h
     simp at h
     obtain ⟨rfl, _⟩ := h
@@ -499,17 +517,16 @@ theorem parseShortArg_spec (c : Cmd) (wf : WF c) (sf : ShortFlags) (st : ParseSt
   · next h => exact absurd h hst
   · simp only
     split
-    · exact lit vaf
+    · next hc => exact lit vaf (by simp at hc; exact hc.1)
     · split
-      · exact lit vaf
+      · next hc => exact lit vaf (by simp at hc; exact hc.1.1)
       · split
-        · exact lit vaf
-        · have h0 : p.flagSubSkip = 0 := hp.1
-          have hadv : ShortFlags.advanceBy p.flagSubSkip 0 sf = (sf, none) := by rw [h0]; rfl
+        · next hc => exact lit vaf (by simp at hc; exact hc.1.1)
+        · obtain ⟨sf1, hadv, _⟩ := advanceBy_spec p.flagSubSkip 0 sf hf
           rw [hadv]
           simp only
-          have hp0 : PInv c { p with flagSubSkip := 0 } := ⟨rfl, hp.2⟩
-          exact shortLoop_spec c wf _ sf _ .noArg vaf _ hp0 (Or.inl rfl)
+          have hp0 : PInv c { p with flagSubSkip := 0 } := ⟨rfl, hpend⟩
+          exact shortLoop_spec c wf _ sf1 _ .noArg vaf _ hp0 (Or.inl rfl)
 
 theorem PendingOk.of_none {c : Cmd} {p : P} (h : p.pending = none) : PendingOk c p := by
   intro pd hpd; rw [h] at hpd; cases hpd
@@ -908,7 +925,8 @@ theorem loop_no_panic (c : Cmd) (wf : WF c) (similar : Bytes → Bytes → Bool)
               · exact absurd rfl hresok.1
           · split at h
             · next sf _ =>
-              obtain ⟨hinv, hnp, hres⟩ := parseShortArg_spec c wf sf ls.st ls.posCounter ls.validArgFound p hp hs.1
+              obtain ⟨hinv, hnp, hres⟩ := parseShortArg_spec c wf sf ls.st ls.posCounter ls.validArgFound p hp.2
+                (by rw [hp.1]; exact Nat.zero_le _) hs.1
               have hkeep := parseShortArg_keep c sf ls.st ls.posCounter ls.validArgFound p hp.pendingOk
               split at h
               · next p1 e1 heq => rw [heq] at hnp; simp at h; subst h; exact hnp e1 rfl
